@@ -82,7 +82,11 @@ class Vector(Qube):
 
             # For any other Qube, move numerator items to the denominator
             if arg.rank > 1:
-                return arg.split_items(1, Vector)
+                result = arg.split_items(1, Vector)
+                if recursive:
+                    for (key, deriv) in arg._derivs_.items():
+                        result.insert_deriv(key, deriv.split_items(1, Vector))
+                return result
 
             arg = Vector(arg, derivs=arg._derivs_)
             if recursive:
